@@ -65,6 +65,30 @@ fn pool_scenario() {
             assert_eq!(cells[i], (j * 100 + i + 1) as u64, "write of call {i} of broadcast {j} not visible");
         }
     }
+    // Index 0 finishes last: the caller's very first look at the countdown
+    // already sees zero, so whatever orders the return after the workers'
+    // calls must be on that path too.
+    for n in [1usize, 3] {
+        let done = AtomicUsize::new(0);
+        let mut v: Vec<Option<Box<u64>>> = Vec::new();
+        pool.par_extend(&mut v, n, |i| {
+            if i == 0 {
+                while done.load(Relaxed) < n {
+                    std::thread::yield_now();
+                }
+                // Give the workers time to finish their bookkeeping.
+                for _ in 0..50 {
+                    std::thread::yield_now();
+                }
+            } else {
+                done.fetch_add(1, Relaxed);
+            }
+            Box::new(i as u64)
+        });
+        for (i, b) in v.iter().enumerate() {
+            assert_eq!(**b.as_ref().unwrap(), i as u64);
+        }
+    }
     drop(pool);
 }
 
